@@ -148,7 +148,7 @@ def run_case(case):
 
         def go():
             cli.reset_config()
-            Configuration.exclude.extend(case["option"])
+            cli.add_excludes(case["option"])
             Configuration.load(Path(arg))
             return Scanner.scan_path(Path(arg))
 
